@@ -293,6 +293,8 @@ structure Impl where
   staleTmp : Bool := false
   /-- class of shared / clashing URIs seen so far in the case -/
   sticky : String := ""
+  /-- why `notification.xml` cannot be parsed (kept while it stays unparsable) -/
+  badNotif : String := ""
 deriving Repr, Inhabited
 
 structure St where
@@ -395,7 +397,6 @@ def cpOf (ows : List String) (h : String) : Option Nat :=
 
 def oracle (st : St) (pre : Impl) (op : List String) (ret : String) (ows : List String)
     (post : Impl) : List String := Id.run do
-  if st.outside then return []
   if ret == "panic" then
     return [s!"deltas_le_max[{if st.maxNr == 0 then "max_nr=0" else "panic"}]"]
   let mut c10 : List String := []     -- per-publisher predicates (tagged with the publisher's class)
@@ -488,8 +489,7 @@ def oracle (st : St) (pre : Impl) (op : List String) (ret : String) (ows : List 
     | none => pure ()
     | some f =>
       match f.nf with
-      | none =>
-        other := other ++ [s!"notification_consistent[{if pre.staleNewNotif then "stale-new-notification" else "unparsable"}]"]
+      | none => other := other ++ [s!"notification_consistent[{post.badNotif}]"]
       | some (ns, nser) =>
         let flagsOk := f.snapFlag == "ok" && f.deltas.all (·.flag == "ok")
         if !flagsOk then other := other ++ ["notification_consistent"]
@@ -799,7 +799,12 @@ def updateImpl (pre : Impl) (op : List String) (ret : String) (ows : List String
     | "pub" :: _ :: spec :: _ => ((parseElems spec).getD []).map (·.uri)
     | _ => []
   let sticky := globalClass (pre.pubs ++ pubs) (extra ++ opUris) pre.sticky
-  { pubs, sess, serial, files, seen, lastWriteBroken := broken, staleNewNotif := staleNN, staleTmp, sticky }
+  let badNotif := match files with
+    | some f => if f.nf.isSome then "" else
+        if pre.badNotif != "" then pre.badNotif
+        else if pre.staleNewNotif then "stale-new-notification" else "unparsable"
+    | none => pre.badNotif
+  { pubs, sess, serial, files, seen, lastWriteBroken := broken, staleNewNotif := staleNN, staleTmp, sticky, badNotif }
 
 def step (st : St) (line : String) : St × String :=
   let (opS, obsS) := splitObs line
@@ -824,7 +829,7 @@ def step (st : St) (line : String) : St × String :=
   let post := if op.headD "" == "init" then updateImpl {} op ret ows else post
   let forProp := fun (l : List String) => if st.prop == "" then l else l.filter fun p => propOf p == st.prop
   if !st.synced then
-    let orc := forProp (oracle st pre op ret ows post)
+    let orc := if st.outside then [] else forProp (oracle st pre op ret ows post)
     let st' := { st with impl := post }
     if orc.isEmpty then (st', "skip unsynced") else (st', "FAIL oracle " ++ " ".intercalate orc)
   else
@@ -833,7 +838,8 @@ def step (st : St) (line : String) : St × String :=
   | some m =>
     let st1 : St := { st with srv := m.srv, rfs := m.rfs, sfs := m.sfs, bak := m.bak, dead := m.dead, impl := post }
     let orcAll := oracle st1 pre op ret ows post
-    let orc := forProp orcAll
+    -- histories outside the quantifier of the properties are only compared with the model
+    let orc := if st1.outside then [] else forProp orcAll
     let osfx := if orc.isEmpty then "" else " ORACLE " ++ " ".intercalate orc
     -- the taint does not depend on which property is looked at
     let st1 := if orcAll.isEmpty then st1 else { st1 with taint := true }
